@@ -299,6 +299,9 @@ Definition builtin_method (m : string) (r : val) (args : list val) : option (val
   (* io::Error *)
   | VCtor "IoError" (k :: _), [] =>
       if String.eqb m "kind" then Some (r, k) else None
+  (* Result::ok *)
+  | VCtor "Ok" [v], [] => if String.eqb m "ok" then Some (r, VCtor "Some" [v]) else None
+  | VCtor "Err" _, [] => if String.eqb m "ok" then Some (r, VCtor "None" []) else None
   (* Option *)
   | VCtor "Some" [v], [d] =>
       if String.eqb m "unwrap_or" then Some (r, v) else None
